@@ -47,7 +47,8 @@ func ScanBuf(br *bufio.Reader) (imageType ImageType, err error) {
 // identified.
 func ReadAt(r io.ReaderAt) (imageType ImageType, err error) {
 	buf := [searchHeaderLength]byte{}
-	if _, err = r.ReadAt(buf[:], 0); err != nil {
+	// An io.ReaderAt may return io.EOF together with a full read that ends at the end of the source.
+	if n, err := r.ReadAt(buf[:], 0); err != nil && !(err == io.EOF && n == len(buf)) {
 		return ImageUnknown, err
 	}
 
